@@ -379,8 +379,9 @@ func (p proxyHandler) writeResponse(rw http.ResponseWriter, res *http.Response) 
 	var err error
 	switch {
 	case isTextEventStream(res):
-		w := newPatternFlushWriter(rw, http.NewResponseController(rw), sseFlushPattern)
-		err = copyBody(w, res.Body)
+		// Events end with a blank line, and lines end with LF, CR or CRLF: relay every piece of the stream
+		// as it arrives instead of looking for one of the spellings (as httputil.ReverseProxy does).
+		err = copyBody(flushAfterWriter{rw, http.NewResponseController(rw)}, res.Body)
 	case shouldChunk(res):
 		w := newPatternFlushWriter(rw, http.NewResponseController(rw), chunkFlushPattern)
 		err = copyBody(w, res.Body)
